@@ -14,9 +14,11 @@ from ..gen.project import Gen, Knobs, Unit
 THEOREMS = ["Schedule.process_terminates_drains", "Schedule.state_order_independent", "Schedule.one_bad_file",
             "Schedule.exit_status_range", "Schedule.exit_status_three_iff", "Schedule.exit_status_two_iff",
             "Schedule.acyclic_sees_final", "Schedule.body_view_acyclic", "Schedule.body_view_order_independent",
-            "Schedule.cyclic_sees_unfinished",
+            "Schedule.cyclic_sees_unfinished", "Schedule.submodule_before_package_counterexample",
             "PostProcess.kind_pass_spec", "PostProcess.kind_pass_order_independent", "PostProcess.early_stop_order_dependent"]
-RULE = ("generated projects (cross-module bases, star imports, __all__ re-exports, import cycles, unparsable files) analysed "
+RULE = ("generated projects (cross-module bases, star imports, __all__ re-exports, import cycles, unparsable files; plain imports whose "
+        "importer's statements depend on the target being analysed; a star import taken before / after the single re-export; a "
+        "sub-module asked for before its package; a re-exported sub-package with relative imports; the hunter's inputs verbatim) analysed "
         "under every reachable processing order for small projects (package first, its modules in any order, roots in any "
         "order; sampled beyond 120 orders). (a) the real processModule/getProcessedModule call log of every order is "
         "compared with the Lean Schedule model, whose import lists are read off ONE reference run; (b) the canonical dump "
@@ -26,7 +28,11 @@ RULE = ("generated projects (cross-module bases, star imports, __all__ re-export
         "canonical dumps compared. Orders are the reachable ones: depth-first, package first, siblings and roots in any order. Non-trivial = project with an import edge between siblings and at least "
         "two distinct orders.")
 ASSUMPTIONS = ["which modules a body asks for (getProcessedModule targets) is a function of the source text alone; read from a reference run",
-               "for projects with import cycles only the class hierarchy (bases, linearisations) is required to agree, as the property says"]
+               "for projects with import cycles only the class hierarchy (bases, linearisations) is required to agree, as the property says; "
+               "a request for a package ABOVE the importer (`from . import x`) is not an import cycle for this purpose: Python has run that "
+               "package's __init__ before the module whatever is imported first",
+               "the cause named in a signature (plain import / sub-module before its package) is established by re-running the two orders "
+               "with the corresponding repair emulated in-process; the emulation only NAMES a difference the oracle has already found"]
 PARTIAL = {"Schedule.order_independent(documented objects)": "the theorems cover the scheduler (drain, once, final state, "
            "independent of the order) and, for acyclic projects, that every module body obtains each imported module in its "
            "final state and therefore observes the same sequence under every order (body_view_order_independent); that the "
@@ -428,31 +434,13 @@ def moved_origins(system) -> set:
             if getattr(o, "_verif_orig", None) is not None and o._verif_orig != o.fullName() and " " not in o.name}
 
 
-def entered_before_package(units: List[Unit], log: List[str]) -> bool:
-    """was some sub-module entered before the package it belongs to? (Python never does that)"""
-    idx = {u.qname: i for i, u in enumerate(units)}
-    pos = {ev[5:]: n for n, ev in enumerate(log) if ev.startswith("start")}
-    for i, u in enumerate(units):
-        p = idx.get(u.parent) if u.parent else None
-        if p is not None and str(i) in pos and str(p) in pos and pos[str(i)] < pos[str(p)]:
-            return True
-    return False
-
-
-def diff_sig(a: Dict[str, Any], b: Dict[str, Any], moved: set = frozenset(), early: bool = False, displaced: bool = False) -> Tuple[str, str]:
-    """`early`: under exactly one of the two orders some sub-module was entered before its package;
+def diff_sig(a: Dict[str, Any], b: Dict[str, Any], moved: set = frozenset(), displaced: bool = False) -> Tuple[str, str]:
+    """shape of the FIRST difference (the fallback of `classify`);
     `displaced`: a re-export moved an object onto the full name of a module (`from .X import X` in a package)"""
     ka, kb = set(a), set(b)
     if ka != kb:
         d = sorted(ka ^ kb)
         both = {**a, **b}
-        # (0) C07 hunter finding 1: the SAME objects documented below two different parents (a re-export that happens
-        # under one order and is dropped under the other), and only one of the orders entered a sub-module before its
-        # package (getProcessedModule does not process the packages above a module first)
-        only_a, only_b = sorted(ka - kb), sorted(kb - ka)
-        if early and only_a and len(only_a) == len(only_b) and all(k == only_a[0] or k.startswith(only_a[0] + ".") for k in only_a) \
-                and [only_b[0] + k[len(only_a[0]):] for k in only_a] == only_b:
-            return "reexport-dropped-when-submodule-entered-before-its-package", f"{only_a[0]} under one order, {only_b[0]} under the other"
         # (1) every extra object is an ATTRIBUTE of a class one of whose (documented) ancestors has a member of that
         # name: `meth = deco(Base.meth)` in a class body is a wrapped inherited method when the base is known while
         # the body is visited, a new attribute when it is not (known finding: base imported from the defining module
@@ -665,7 +653,11 @@ def classify(a: Dict[str, Any], b: Dict[str, Any], moved: set, src: Dict[str, st
         return "order-dependent:plain-import:target-not-analysed", first
     if ev_a[1] != ev_b[1]:
         its = diff_items(a, b)
-        if all(f in ("present", "bases", "mro", "mro_resolved", "parent", "docsources") for _k, f, _x, _y in its) \
+        # what a re-export that is done under one order and finds nothing under the other changes: where objects are
+        # documented, what the bases are called / resolve to — and, when the moved object takes over the name of its
+        # module (`from .X import X`), which KIND of object sits under that name (every field of it differs then)
+        other_kind = {k for k, f, _x, _y in its if f == "cls"}
+        if all(f in ("present", "bases", "mro", "mro_resolved", "parent", "docsources") or k in other_kind for k, f, _x, _y in its) \
                 and counterfactual(parents_first=True):
             return "order-dependent:submodule-analysed-before-its-package", "%s: %s %r vs %r" % its[0]
     if reexp and shapes and kinds <= {"wrap", "zope", "docassign"} and all(sh != "docassign" or it[0] in moved for it, sh in shapes):
@@ -674,7 +666,7 @@ def classify(a: Dict[str, Any], b: Dict[str, Any], moved: set, src: Dict[str, st
         return "order-dependent:reexport:" + sig, first
     if tag != "cyclic" and stale_star_base(a, b, moved, src):
         return "order-dependent:reexport:stale-star-import-of-moved-base", first
-    sig, what = diff_sig(a, b, moved, False, displaced)
+    sig, what = diff_sig(a, b, moved, displaced)
     if sig == "base-moved-onto-the-name-of-its-module":
         tag = "reexport"
     if sig in ("attribute-wrapping-inherited-method", "zope-kind-of-moved-interface"):
@@ -1018,14 +1010,57 @@ def subpackage_reexport_scenario(rng) -> List[Unit]:
     return units + ((ip + ap) if rng.random() < 0.5 else (ap + ip))
 
 
+def hunt_corpus() -> List[List[Unit]]:
+    """the inputs of hunt/C06/1..4 (and the `noticed` docstring-assignment case), both layouts each; the orders are
+    enumerated like for every other project"""
+    def mk(*mods: Tuple[str, str]) -> List[Unit]:
+        qs = [q.rstrip("/") for q, _ in mods]          # a trailing `/` marks a package without modules
+        return [Unit(q.rstrip("/"), q.endswith("/") or any(o.startswith(q + ".") for o in qs), text, q.rpartition(".")[0] or None) for q, text in mods]
+    base = "class B:\n    def meth(self):\n        'a method'\ndef helper():\n    pass\n"
+    user = "import %s\ndef deco(f):\n    return f\nclass Y(%s.B):\n    meth = deco(%s.B.meth)\n%s.helper.__doc__ = 'documented by user'\n"
+    return [
+        mk(("base", base), ("user", user % (("base",) * 4))),
+        mk(("top", ""), ("top.base", base), ("top.a_user", user % (("top.base",) * 4))),
+        mk(("impl", "class C:\n    'doc'\n"), ("public", "from impl import C\n__all__ = ['C']\n"), ("compat", "from impl import *\n"),
+           ("client", "from compat import C\nclass Sub(C):\n    pass\n")),
+        mk(("pkg", "from .core import Base\n__all__ = ['Base', 'Derived']\nclass Derived(Base):\n    pass\n"),
+           ("pkg.core", "from . import util\nclass Base:\n    pass\n"), ("pkg.util", "def helper():\n    pass\n"),
+           ("app", "from pkg.core import Base\nclass App(Base):\n    pass\n")),
+        mk(("top", ""), ("top.app", "from .core.base import Base\nclass App(Base):\n    pass\n"),
+           ("top.core", "from .base import *\nclass Derived(Base):\n    pass\n"),
+           ("top.core.base", "from . import util\nclass Base:\n    pass\n"), ("top.core.util", "def helper():\n    pass\n")),
+        mk(("api/", "from impl import sub\n__all__ = ['sub']\n"), ("impl", ""), ("impl.helpers", "class H:\n    pass\n"), ("impl.sub", ""),
+           ("impl.sub.leaf", "from ..helpers import H\nclass L(H):\n    pass\n")),
+        mk(("lib", ""), ("lib._impl", "class X:\n    def meth(self):\n        'meth doc'\n"), ("lib.api", "from ._impl import X\n__all__ = ['X']\n"),
+           ("lib.user", "from ._impl import X\nX.__doc__ = 'documented by the user module'\n")),
+    ]
+
+
 def run(ctx: Ctx) -> None:
     from .c07 import gen_project as reexport_project
     nproj = 200 if ctx.quick else 2500
     limit = 24 if ctx.quick else 120
     reqs, impls, pay = [], [], []
     pending: List[Tuple[int, str, Dict[str, Any], str]] = []    # order-dependence reports, filed once the project is done
-    for i in range(nproj):
-        if i % 4 == 3:
+    corpus = hunt_corpus()
+    for i in range(-len(corpus), nproj):
+        if i < 0:
+            # the hunter's inputs, verbatim: seeing the open findings does not depend on the seed
+            units = corpus[i]
+            ctx.count("projects:hunter-corpus")
+        elif i % 32 in (24, 14):
+            units = plain_body_scenario(ctx.rng)
+            ctx.count("projects:plain-import-body-scenario")
+        elif i % 32 == 20:
+            units = star_snapshot_scenario(ctx.rng)
+            ctx.count("projects:star-snapshot-scenario")
+        elif i % 32 == 30:
+            units = early_submodule_scenario(ctx.rng)
+            ctx.count("projects:submodule-before-package-scenario")
+        elif i % 32 == 22:
+            units = subpackage_reexport_scenario(ctx.rng)
+            ctx.count("projects:subpackage-reexport-scenario")
+        elif i % 4 == 3:
             # the re-export scenarios of C07 (single re-exporter, consumers of definer / re-exporter)
             units, _meta = reexport_project(ctx.rng)
             ctx.count("projects:reexport-scenario")
@@ -1041,23 +1076,11 @@ def run(ctx: Ctx) -> None:
         elif i % 16 in (10, 12):
             units = wrap_scenario(ctx.rng)
             ctx.count("projects:base-known-at-visit-scenario")
-        elif i % 16 in (0, 8):
-            units = plain_body_scenario(ctx.rng)
-            ctx.count("projects:plain-import-body-scenario")
-        elif i % 32 == 4:
-            units = star_snapshot_scenario(ctx.rng)
-            ctx.count("projects:star-snapshot-scenario")
-        elif i % 32 == 20:
-            units = early_submodule_scenario(ctx.rng)
-            ctx.count("projects:submodule-before-package-scenario")
-        elif i % 32 in (14, 30):
-            units = subpackage_reexport_scenario(ctx.rng)
-            ctx.count("projects:subpackage-reexport-scenario")
         else:
             g = Gen(ctx.rng, Knobs(max_modules=5 if ctx.quick else 7, reexport=0.3, star=0.25, single_reexporter=True))
             units = g.project()
             ctx.count("projects:random")
-        if ctx.rng.random() < 0.25 and len(units) > 1:
+        if i >= 0 and ctx.rng.random() < 0.25 and len(units) > 1:
             j = ctx.rng.randrange(1, len(units))
             units[j] = Unit(units[j].qname, units[j].is_package, "def broken(:\n    pass\n", units[j].parent)
         src = {u.qname: u.source for u in units}
